@@ -65,7 +65,12 @@ fn escape_unicode_chars(s: &str) -> String {
                 6 => esc_c.replace("\\u{", "\\u00").replace('}', ""), // example: \u{de}
                 7 => esc_c.replace("\\u{", "\\u0").replace('}', ""),  // example: \u{980}
                 8 => esc_c.replace("\\u{", "\\u").replace('}', ""),   // example: \u{23f0}
-                _ => {panic!("unexpected value")}
+                // outside the BMP (example: \u{1f600}): JSON escapes need a UTF-16 surrogate pair
+                _ => c
+                    .encode_utf16(&mut [0u16; 2])
+                    .iter()
+                    .map(|unit| format!("\\u{:04x}", unit))
+                    .collect(),
             };
 
             result.push_str(&esc_c_new);
